@@ -6,9 +6,16 @@ use serde_json::{json, Value};
 
 /// the independently assembled description whose sha256 is the key id
 pub fn reference_description(keytype: &str, scheme: &str, halgs: bool, public: &str) -> Value {
+    reference_description_h(keytype, scheme, if halgs { "default" } else { "absent" }, public)
+}
+
+/// hash-algorithm list: "absent" (no member), "default" (sha256, sha512), "empty" (the member is an empty list)
+pub fn reference_description_h(keytype: &str, scheme: &str, halgs: &str, public: &str) -> Value {
     let mut d = json!({"keytype": keytype, "scheme": scheme, "keyval": {"public": public}});
-    if halgs {
-        d["keyid_hash_algorithms"] = json!(["sha256", "sha512"]);
+    match halgs {
+        "default" => d["keyid_hash_algorithms"] = json!(["sha256", "sha512"]),
+        "empty" => d["keyid_hash_algorithms"] = json!([]),
+        _ => {}
     }
     d
 }
@@ -22,6 +29,25 @@ pub fn pem_of_spki(der: &[u8]) -> String {
     }
     s.push_str("-----END PUBLIC KEY-----");
     s
+}
+
+/// type and scheme names of a key, from its own (typed) accessors - not from its JSON form
+pub fn key_type_scheme(k: &PublicKey) -> (&'static str, &'static str) {
+    use in_toto::crypto::KeyType;
+    let t = match k.typ() {
+        KeyType::Ed25519 => "ed25519",
+        KeyType::Rsa => "rsa",
+        KeyType::Ecdsa => "ecdsa",
+        _ => "unknown",
+    };
+    let s = match k.scheme() {
+        SignatureScheme::Ed25519 => "ed25519",
+        SignatureScheme::EcdsaP256Sha256 => "ecdsa-sha2-nistp256",
+        SignatureScheme::RsaSsaPssSha256 => "rsassa-pss-sha256",
+        SignatureScheme::RsaSsaPssSha512 => "rsassa-pss-sha512",
+        _ => "unknown",
+    };
+    (t, s)
 }
 
 pub fn type_scheme(family: &str) -> (&'static str, &'static str) {
@@ -98,6 +124,38 @@ pub fn keyid_preimages() -> Value {
             if want != got {
                 bad.push(json!({"family": fam, "idx": i, "want": want, "got": got}));
             }
+            // the same material under every hash-algorithm-list variant the API can express
+            if fam == "ed25519" || fam == "ecdsa" {
+                let raw = pk.as_bytes().to_vec();
+                let variants: [(&str, Option<Vec<String>>); 3] =
+                    [("absent", None), ("empty", Some(vec![])), ("default", Some(vec!["sha256".to_string(), "sha512".to_string()]))];
+                for (name, list) in variants {
+                    let k = if fam == "ed25519" {
+                        PublicKey::from_ed25519_with_keyid_hash_algorithms(raw.clone(), list)
+                    } else {
+                        PublicKey::from_ecdsa_with_keyid_hash_algorithms(raw.clone(), list)
+                    };
+                    let k = match k {
+                        Ok(k) => k,
+                        Err(e) => {
+                            bad.push(json!({"family": fam, "idx": i, "variant": name, "error": e.to_string()}));
+                            continue;
+                        }
+                    };
+                    let want = sha256_hex(&olpc_bytes(&reference_description_h(kt, sch, name, &public_field(fam, pk))));
+                    let got = keys::kid_str(k.key_id());
+                    n += 1;
+                    if want != got {
+                        bad.push(json!({"family": fam, "idx": i, "variant": name, "want": want, "got": got}));
+                    }
+                    // ... and after a JSON trip
+                    let back: Result<PublicKey, _> = serde_json::from_str(&serde_json::to_string(&k).unwrap());
+                    match back {
+                        Ok(b) if keys::kid_str(b.key_id()) == want && b == k => {}
+                        other => bad.push(json!({"family": fam, "idx": i, "variant": name, "json_trip": format!("{:?}", other.map(|b| keys::kid_str(b.key_id())))})),
+                    }
+                }
+            }
         }
     }
     json!({"n": n, "bad": bad})
@@ -127,11 +185,15 @@ pub fn standard_spki(typ: &str, material: &[u8]) -> Vec<u8> {
 }
 
 fn expected_id(typ: &str, scheme: &str, halgs: bool, material: &[u8]) -> String {
+    expected_id_h(typ, scheme, if halgs { "default" } else { "absent" }, material)
+}
+
+fn expected_id_h(typ: &str, scheme: &str, halgs: &str, material: &[u8]) -> String {
     let public = match typ {
         "rsa" => pem_of_spki(&rsa_spki(material)),
         _ => data_encoding::HEXLOWER.encode(material),
     };
-    sha256_hex(&olpc_bytes(&reference_description(typ, scheme, halgs, &public)))
+    sha256_hex(&olpc_bytes(&reference_description_h(typ, scheme, halgs, &public)))
 }
 
 /// run one construction path on every fixture key of the type
@@ -167,6 +229,7 @@ pub fn run_path(scn: &Value) -> Value {
             let mut scheme = SignatureScheme::Ed25519;
             let mut scheme_s = String::new();
             let mut halgs = true;
+            let mut halgs_empty = false;
             for (step, op) in scn["path"].as_array().unwrap().iter().enumerate() {
                 let op = op.as_str().unwrap();
                 let r: Result<Result<PublicKey, String>, String> = guarded(|| match op {
@@ -193,6 +256,17 @@ pub fn run_path(scn: &Value) -> Value {
                             PublicKey::from_ed25519(material.clone()).map_err(|e| e.to_string())
                         } else {
                             PublicKey::from_ecdsa(material.clone()).map_err(|e| e.to_string())
+                        }
+                    }
+                    "raw_empty" => {
+                        scheme_s = type_scheme(fam).1.to_string();
+                        scheme = scheme_of(&scheme_s);
+                        halgs = true;
+                        halgs_empty = true;
+                        if typ == "ed25519" {
+                            PublicKey::from_ed25519_with_keyid_hash_algorithms(material.clone(), Some(vec![])).map_err(|e| e.to_string())
+                        } else {
+                            PublicKey::from_ecdsa_with_keyid_hash_algorithms(material.clone(), Some(vec![])).map_err(|e| e.to_string())
                         }
                     }
                     "raw_halgs" => {
@@ -238,7 +312,11 @@ pub fn run_path(scn: &Value) -> Value {
                         break;
                     }
                 };
-                let want = expected_id(typ, &scheme_s, halgs, &material);
+                // a re-import from SubjectPublicKeyInfo gives the importer's default list
+                if op == "respki" {
+                    halgs_empty = false;
+                }
+                let want = expected_id_h(typ, &scheme_s, if halgs_empty { "empty" } else if halgs { "default" } else { "absent" }, &material);
                 if keys::kid_str(k.key_id()) != want {
                     problems.push(json!({"family": fam, "idx": idx, "step": step, "op": op, "id": keys::kid_str(k.key_id()), "want": want}));
                 }
@@ -313,7 +391,8 @@ pub fn run_table(scn: &Value, family: &str) -> Value {
     };
     for (id, key) in &layout.keys {
         // the intrinsic id, recomputed independently from the material
-        let (kt, sch) = type_scheme(family);
+        // (a family with fewer than three keys is completed with ed25519 keys: describe the key itself)
+        let (kt, sch) = key_type_scheme(key);
         let intrinsic = expected_id(kt, sch, !no_halgs, key.as_bytes());
         if keys::kid_str(id) != intrinsic {
             problems.push(json!({"table_maps_id_to_key_with_other_intrinsic_id": keys::kid_str(id), "intrinsic": intrinsic}));
